@@ -19,6 +19,12 @@ CHECKS = {
  "C11": dict(cat="exploration", tech="losslessness/bound predicates over the wire transcript; exhaustive small-alphabet texts + PRNG text classes",
    text="Privmsg/Privmsgln/Privmsgf/Notice/Ctcp/CtcpReply/Action over 10 SplitLen values; every text over {a,space,.} of the stated lengths at SplitLen 13 exhaustively and PRNG texts up to 6000 bytes with separators placed around the cut point; each piece <= SplitLen, '...' on all but the last, no empty piece, exact reassembly, same target, one piece when it fits. Exhaustive for the small alphabet and lengths, sampling beyond.",
    note="Trusted: consecutive calls use different targets so wire lines are attributed to calls by prefix.", ref="§4 C11"),
+ "C12": dict(cat="exploration", tech="reference-model differential monitor on the real tracker: BFS to closure over a small name universe + long PRNG operation sequences, full query sweep after every step",
+   text="The real tracker is driven to every one of the reachable model states of the relational-skeleton universe (closure completed: exhaustive there), every interface call with every argument combination is applied from each, and return values plus a full query sweep are compared with an executable relational model; long PRNG sequences over a larger universe with all attributes add the mode/attribute behaviour. Exhaustive for the small universe, sampling beyond.",
+   note="Trusted: the model's reading of the statement (noted in evidence assumptions: unspecified outcomes are skipped or follow the implementation); states are reached by replaying the BFS path on a fresh tracker.", ref="§4 C12"),
+ "C14": dict(cat="exploration", tech="mutate-and-resweep aliasing monitor; Go race detector attributed to goirc/state; porcupine linearizability check of timed concurrent histories against the C12 model",
+   text="Every returned value is scribbled over and the tracker re-swept against the model; earlier values are compared with their deep copies after later operations; 3..8 goroutines hammer one tracker under -race; many short timed histories are checked for linearizability with porcupine. Held on the histories and interleavings observed (evidence reports overlapping operation pairs).",
+   note="Trusted: porcupine v1.3.0; the C12 model as sequential specification; ticks from one atomic counter taken before the call and after the return.", ref="§4 C14"),
 }
 
 NOT_BUILT = "check not built yet in this round (planned, see DESIGN.md §4)"
